@@ -32,7 +32,7 @@ PROVED = {
  "C02": "proved: luby (termination, value), solve_sat.unassign_to/assign, reduce_db/add_watch",
  "C03": "proved: check_matrix_dims, simplex._extract", "C04": "proved: _most_fractional, _compute_gap, _is_feasible (the acceptance test of every heuristic incumbent: True only for a point that is non-negative, integral on the designated entries and satisfies every row within eps), check_matrix_dims",
  "C06": "proved for all Boolean assignments: _encode_eq_const/_ne_const/_ne_var/_at_most_one/_exactly_one",
- "C09": "proved: network_simplex._residual",
+ "C09": "proved: network_simplex._residual, network_simplex._find_join (the join is a common ancestor of both end points at the stated depth distance, and the walk terminates; tree facts of the caller as entry precondition)",
  "C10": "proved: solve_hungarian optimality certificate (dual-feasible potentials of the zero-padded matrix, tight row-perfect matching, assignment = its restriction, objective = sum of the original entries, no arithmetic on +-inf), assignment_cost; weak duality and the padding argument are paper lemmas",
  "C11": "proved: dijkstra and astar (weight 1, consistent heuristic) real path AND optimality / infeasibility certificate, bfs real path AND minimal-length certificate by levels, dfs real path AND completeness certificate (INFEASIBLE only with a closed goal-free visited set), bellman_ford distance certificate, reconstruct_path, _reconstruct_indexed; no arithmetic on +-inf under finite weights",
  "C12": "proved: rust.get_backend (answers 'rust' or 'python', 'rust' only when the extension is importable, for every request value; rust_available by assumed contract); adapters and kernels bounded / external only",
